@@ -1,15 +1,14 @@
 SPECIFICATION Spec
 CONSTANTS
-  QosChoices <- QosOne
+  QosChoices <- QosFull
   LateChoices = {"none"}
   ThirdChoices = {FALSE}
-  DelChoices = {"none"}
-  BlackoutChoices = {1}
-  PostChoices = {"none"}
+  DelChoices = {"R", "W"}
+  BlackoutChoices = {0}
+  PostChoices = {"W2", "R3"}
   MatchOnCreate = TRUE
-  RematchFix = FALSE
-  GenK = 1000000
+  RematchFix = TRUE
+  GenK = 30
 INVARIANTS Inv_MatchedSound Inv_SeenOnlyOfKnown Inv_TypeOK
-PROPERTIES Live_EventuallyMatched Live_DeleteSeen
 ACTION_CONSTRAINT GenEdge
 CHECK_DEADLOCK FALSE
